@@ -24,6 +24,8 @@ F_SUBCAT = 'C03-export-1.1-loses-sense-frame-links'
 F_EXMETA = 'C03-export-drops-example-metadata'
 F_ANNOT = 'C03-export-includes-extension-form-annotations'
 F_PROPOSED = 'C03-export-loses-proposed-ili-without-definition'
+RULE_HUGE = ('thorough tier: ~5 of the 50000 runs use a lexicon of 33000 synsets (more rows than '
+             'SQLite has host parameters) with export + load + projection only. ')
 RULE = ('one run = seeded universe + seeded history of 3-8 ops with 1-2 export/re-import steps '
         'at random points: wn.export of 1-3 installed non-extension lexicons as LMF 1.0/1.1/'
         '1.2/1.3 on the primary node (while extensions of them, other versions sharing their '
@@ -35,7 +37,7 @@ RULE = ('one run = seeded universe + seeded history of 3-8 ops with 1-2 export/r
         'absent); (b) wn.add of the file on an empty replica node and comparison of the '
         'per-lexicon public-API image with the primary\'s. identifier clashes => wn.Error '
         'expected. one evaluation = one export; distinct = (store digest, specs, version); '
-        'non-trivial = exported lexicon has >=1 entry and >=1 synset')
+        'non-trivial = exported lexicon has >=1 entry and >=1 synset. ' + RULE_HUGE)
 
 
 def mrel(r):
@@ -62,6 +64,9 @@ def project(m: Model, sp, v, annotated):
                                for d in doc.get('requires', [])])
     links = []
     frames = set()
+    senses_of = {}
+    for s_, _e in ix.local_senses():
+        senses_of.setdefault(s_['synset'], []).append(s_['id'])
     for e in ix.local_entries():
         lem = e['lemma']
         key = K(sp, e['id'])
@@ -120,8 +125,7 @@ def project(m: Model, sp, v, annotated):
         if ge11:
             o['lexfile'] = ss.get('lexfile')
             declared = list(ss.get('members', []) or [])
-            others = [s['id'] for s, _ in ix.local_senses()
-                      if s['synset'] == ss['id'] and s['id'] not in declared]
+            others = [x for x in senses_of.get(ss['id'], []) if x not in declared]
             o['members'] = PrefixThenSet(declared, others)
         out['synsets'][ss['id']] = o
     return out
@@ -284,6 +288,8 @@ class ExportSim(Sim):
                                      dict(ctx, lexicon=sp, path=p, diff=detail,
                                           more=[x[0] for x in dd[1:5]]))
         # (b) re-import on an empty replica node
+        if op.get('light'):
+            return         # (a lexicon of tens of thousands of synsets: part (a) only)
         prim = {}
         for sp in specs:
             if ' ' in sp:
@@ -441,7 +447,35 @@ def build(seed):
     return u, plan
 
 
-def run_one(seed, tier):
+def build_huge(seed):
+    """A lexicon of the size of real wordnets (33000 synsets: more rows than SQLite has host
+    parameters, 32766); export, load of the export and projection only."""
+    rng = subseed(seed, 'universe-huge')
+    u = U.generate_big(rng, n=33000)
+    plan = [{'op': 'add', 'res': 'r0'},
+            {'op': 'export_reimport', 'specs': ['bige:1'],
+             'version': rng.choice(['1.0', '1.1', '1.3']), 'light': True}]
+    return u, plan
+
+
+def is_huge(seed, tier):
+    # thorough tier only (one such run takes about a minute): ~5 of 50000 runs
+    return tier == 'thorough' and seed % 9973 == 5
+
+
+def run_one(seed, tier, huge=None):
+    if huge or (huge is None and is_huge(seed, tier)):
+        u, plan = build_huge(seed)
+        ExportSim.evals = 0
+        ExportSim.nt = 0
+        r = run_plan(PROP, seed, u, plan, [], sim_cls=ExportSim)
+        r['evals'] = ExportSim.evals
+        r['nt'] = ExportSim.nt
+        r['nontrivial'] = True
+        r['probes']['huge-lexicon'] = 1
+        r['sample'] = {'huge': 33000}
+        r['replay'] = {'huge': True}
+        return r
     u, plan = build(seed)
     ExportSim.evals = 0
     ExportSim.nt = 0
@@ -455,6 +489,8 @@ def run_one(seed, tier):
 
 
 def replay(obj):
+    if obj.get('huge'):
+        return run_one(obj['seed'], 'thorough', huge=True)
     return run_plan(PROP, obj['seed'], obj['universe'], obj['plan'], ORACLES, sim_cls=ExportSim)
 
 
